@@ -60,15 +60,28 @@ PROPS["C14"] = {
     "explanation": "One injected I/O failure at every mutating filesystem call of every bounded history: no panic, the failed operation's keys hold old or new, all other keys exact, reopen succeeds.",
 }
 
+INPUT_RULE = ("exhaustive small-scope enumeration of inputs (listed per sweep in coverage.bounds_completed), each fed to the real codec / API function under "
+              "catch_unwind and a counting global allocator, in child processes so that an abort is a finding. states = distinct parameter classes, "
+              "transitions = cases = inputs evaluated.")
+PROPS["C16"] = {"engines": [{"engine": "input", "shim": False}], "rule": INPUT_RULE,
+                "explanation": "Codecs: all keys/ops/snapshots of a small scope round-trip; all byte strings up to a bound and all single-position mutations of valid encodings decode to a value or an error without panic, with allocation bounded by 32*len+2048 bytes. The 'randomly beyond' clause is not covered (sampling is another family).",
+                "assumptions": ["the sampling clause of the quantifier ('randomly beyond') is out of scope for this technique"]}
+PROPS["C17"] = {"engines": [{"engine": "input", "shim": False}], "rule": INPUT_RULE,
+                "explanation": "Range reads: every (L,start,end) of the stated grid incl. 2^32, 2^63, 2^64-1 and L around 4 KiB/8 KiB buffers equals the slice formula; inverted ranges inside the blob are rejected; no panic; allocation <= L + 64 KiB; get_size and get_reader agree."}
+PROPS["C18"] = {"engines": [{"engine": "input", "shim": False}], "rule": INPUT_RULE,
+                "explanation": "Identity from content only: all short contents x all compositions x empty writes, and buffer-straddling splits of a 20000-byte content, give (blake3, len) and the file at the independently derived path; the hash<->path map is checked on 32768 hashes (every byte position x value). The 'random' clauses are not covered."}
+
 ENGINES = [
     {"name": "seq", "path": "harness/src/seq.rs", "serves_properties": ["C01", "C02", "C07", "C12", "C13"],
      "kind_free_text": "bounded-exhaustive operation-sequence enumeration on the real store vs BTreeMap model + independent on-disk decoders"},
     {"name": "fault", "path": "harness/src/fault.rs", "serves_properties": ["C14"],
      "kind_free_text": "one EIO at every mutating libc call of every bounded history (LD_PRELOAD shim), continuation + reopen vs per-key allowed-value model"},
+    {"name": "input", "path": "harness/src/input.rs", "serves_properties": ["C16", "C17", "C18"],
+     "kind_free_text": "exhaustive small-scope input enumeration into the real codecs / range reads / chunked puts, under catch_unwind and an allocation guard"},
     {"name": "crash", "path": "harness/src/crash.rs", "serves_properties": ["C03", "C20"],
      "kind_free_text": "every syscall boundary of every bounded history: live-directory crash images via LD_PRELOAD shim, recovered and checked, nested in recovery"},
 ]
 
 # properties not (yet) claimed; kept current as engines land
 NOT_APPLICABLE = {p: "engine not built yet in this round (planned, see DESIGN.md §3)" for p in
-                  ["C04", "C05", "C06", "C08", "C09", "C10", "C11", "C15", "C16", "C17", "C18", "C19"]}
+                  ["C04", "C05", "C06", "C08", "C09", "C10", "C11", "C15", "C19"]}
